@@ -19,6 +19,7 @@ PROFILE = {
     "p_retryable": 0.92,
     "max_dur": 8,
     "max_delay_ticks": 16,
+    "attempt_timeout": 0.2,
 }
 ENTRIES = C.RETRY_ENTRIES + ["Retry.context.call", "AsyncPolicy.context.call", "decorator.call", "adecorator.call"]
 
